@@ -392,6 +392,22 @@ func runC13(c *Ctx) {
 			e := srv.ListenAndServe()
 			res, _ := shutdownWithin(srv, 0, 2*time.Second)
 			c.Pred("lifecycle", "failed-start-then-shutdown", "bad network", e != nil && res != "nil" && res != "blocked", fmt.Sprint(e, " / ", res), "errors", true)
+			// a generic PacketConn with a decorated reader that cannot read from one: the serve call refuses; the server
+			// is not running, so Shutdown reports that instead of waiting for a serve loop that does not exist
+			if pc, err := net.ListenPacket("udp", "127.0.0.1:0"); err == nil {
+				srv := &dns.Server{PacketConn: onlyPacketConn{pc}, Handler: dns.HandlerFunc(func(w dns.ResponseWriter, r *dns.Msg) {}),
+					DecorateReader: func(rd dns.Reader) dns.Reader { return plainReader{rd} }}
+				served := make(chan error, 1)
+				go func() { served <- srv.ActivateAndServe() }()
+				var e1 error
+				select {
+				case e1 = <-served:
+				case <-time.After(2 * time.Second):
+				}
+				res, _ := shutdownWithin(srv, 0, 2*time.Second)
+				c.Pred("lifecycle", "failed-start-then-shutdown", "packet conn, reader without ReadPacketConn", e1 != nil && res != "nil" && res != "blocked", fmt.Sprint(e1, " / ", res), "start error, then 'not started' error", true)
+				pc.Close()
+			}
 		}
 		// --- S5: context expiry with a stuck handler: ShutdownContext returns with the context's error, and the socket is
 		//         closed all the same (its address can be bound again)
@@ -612,3 +628,9 @@ func c13OwnErrorListener(c *Ctx) {
 		c.Pred("lifecycle", "serve-returns-nil-own-listener-error", "listener="+variant, serveRes == "<nil>", serveRes, "<nil>", true)
 	}
 }
+
+// onlyPacketConn hides the concrete type of a UDP socket: the server has to treat it as a generic net.PacketConn.
+type onlyPacketConn struct{ net.PacketConn }
+
+// plainReader wraps a Reader without passing on its ReadPacketConn method.
+type plainReader struct{ dns.Reader }
